@@ -429,10 +429,12 @@ def _check_status_init(ctx):
         isinstance(t, ast.Subscript) and self_attr(t.value, "operator_states") for t in n.targets)]
     ok = False
     d = "no per-operator store into operator_states found in __init__"
+    from ..util import single_defs as _sd
+    env_ = _sd(init)
     for st in stores:
         lp = enclosing_for(st, init.node)
         if lp is not None and norm.U(lp.iter) in ("pipeline.values", "self.pipeline.values") and isinstance(lp.target, ast.Name) \
-                and norm.is_name(st.targets[0].slice, lp.target.id) and state_of(st.value) == "PENDING":
+                and norm.is_name(st.targets[0].slice, lp.target.id) and state_of(norm.subst(st.value, env_)) == "PENDING":
             ok = True
             d = f"`{stmt_text(lp)}` stores PENDING for each operator in DAG-iteration order"
         else:
